@@ -47,7 +47,8 @@ FAULT_KINDS = ["request-off-block-boundary", "fill-after-complete-block", "reque
 EXPECTED_PROBES = ["push-buffer_output-overflow", "push-buffer_input-overflow", "remainder-yielded",
                    "split-B-coprime-to-n", "split-B-multiple-of-n", "fillrequestseq-push", "reset-on",
                    "watchdog-guarded-calls", "element-stops-in-the-last-slot-of-a-block",
-                   "post-element-sees-several-results-of-one-request"]
+                   "post-element-sees-several-results-of-one-request", "same-object-run-twice",
+                   "thousand-blocks-between-two-requests"]
 
 BUDGET = 200000
 
@@ -105,10 +106,12 @@ class ProbeRunEl(object):
     """run element: one result per invocation naming the values it got, plus
     (optionally) one result per value."""
 
-    def __init__(self, log, name, per_value=False):
+    def __init__(self, log, name, per_value=False, selective=False):
         self.log = log
         self.name = name
         self.per_value = per_value
+        # like a Filter: results only for some values, nothing at all for some blocks
+        self.selective = selective
         self.nruns = 0
         self.all_fills = []
 
@@ -121,9 +124,13 @@ class ProbeRunEl(object):
             self.log.ev("runval", self.name, v.serial)
             vals.append(v.serial)
             self.all_fills.append(v.serial)
-            if self.per_value:
+            if self.selective:
+                if v.serial % 4 == 3:
+                    yield (self.name, "v", v.serial)
+            elif self.per_value:
                 yield (self.name, "v", v.serial)
-        yield (self.name, 0, tuple(vals))
+        if not self.selective:
+            yield (self.name, 0, tuple(vals))
 
 
 def gen_scenario(tape):
@@ -135,6 +142,7 @@ def gen_scenario(tape):
     sc.remainder = tape.chance(1, 4, "yield-on-remainder")
     sc.results = 1 + tape.draw(2, "results")
     sc.per_value = bool(tape.draw(2, "per-value")) if sc.kind == "run" else False
+    sc.selective = sc.kind == "run" and tape.chance(1, 3, "run-element-yields-nothing-for-some-blocks")
     sc.len = tape.draw(13, "flowlen")
     sc.wrapper = tape.weighted([(3, "bare"), (2, "seq"), (3, "split")], "wrapper")
     if sc.wrapper == "seq":
@@ -159,9 +167,19 @@ def gen_scenario(tape):
         sc.sib_after = tape.draw(2, "sib-after")
         # a fill/request sibling in front of the adapter that signals LenaStopFill after k values
         sc.stopper = tape.draw(6, "stopper-k") if tape.chance(1, 4, "stopping-fr-sibling") else None
+    # the same object runs a second flow afterwards
+    sc.second_run = tape.draw(9, "second-flow-len") if (sc.driver == "run" and tape.chance(1, 3, "run-twice")) else None
+    # many blocks buffered between two requests (a Split with its default bufsize of 1000 does that)
+    sc.long = sc.driver == "push" and sc.wrapper == "bare" and tape.chance(1, 150, "long-flow")
+    if sc.long:
+        sc.n = 1
+        sc.len = 1100
+        sc.remainder = False
+        sc.buffer = "input"
     # the wrapped element itself signals LenaStopFill at its k-th fill (push and Split drivers)
     sc.stop_at = None
-    if sc.kind in ("fc", "fr") and sc.driver in ("push", "split") and tape.chance(1, 5, "element-stops"):
+    if sc.kind in ("fc", "fr") and sc.driver in ("push", "split") and not sc.long \
+            and tape.chance(1, 5, "element-stops"):
         sc.stop_at = tape.draw(sc.len + 1, "stop-at", sweep=True)
     # a post-element of FillRequestSeq that relates the results of one request to each other
     sc.post_reverse = sc.wrapper == "seq" and tape.chance(1, 3, "post-reverse")
@@ -172,7 +190,7 @@ def gen_scenario(tape):
         sc.remainder = False
     # request points for the push history: position p means "after p fills"
     sc.reqs = []
-    if sc.driver == "push":
+    if sc.driver == "push" and not sc.long:
         for p in range(sc.len + 1):
             if tape.draw(3, "request-here", sweep=(p < 7)) == 2:
                 sc.reqs.append(p)
@@ -187,7 +205,7 @@ def make_probe(sc, log):
         return ProbeFCR(log, "el", sc.results, getattr(sc, "stop_at", None))
     if sc.kind == "fr":
         return ProbeFRR(log, "el", sc.results, getattr(sc, "stop_at", None))
-    return ProbeRunEl(log, "el", sc.per_value)
+    return ProbeRunEl(log, "el", sc.per_value, getattr(sc, "selective", False))
 
 
 def make_adapter(sc, probe):
@@ -232,6 +250,9 @@ def model_blocks(sc, values):
         if sc.kind == "run":
             if len(block) < n and not sc.remainder:
                 break
+            if getattr(sc, "selective", False):
+                out.extend(("el", "v", s) for s in block if s % 4 == 3)
+                continue
             if sc.per_value:
                 out.extend(("el", "v", s) for s in block)
             out.append(("el", 0, tuple(block)))
@@ -368,6 +389,37 @@ def drive_run(sc, res, values, cfg):
                      "%d full blocks but %d resets" % (nfull, probe.nreset))
 
 
+    if getattr(sc, "second_run", None) is not None and not sc.remainder and sc.wrapper == "bare":
+        # the same object runs a second flow.  What the wrapped element still holds of an
+        # incomplete last block is not defined; that every new value is filled exactly once, in
+        # order, and that one block of results is emitted per bufsize new values, is.
+        first_fills = len(probe.all_fills)
+        first_comp = getattr(probe, "ncomp", 0)
+        if res.violations:
+            return
+        vals2 = list(range(1000, 1000 + sc.second_run))
+        log.ev("op", "run-again", len(vals2))
+        res.probe("same-object-run-twice")
+        got2, hang = guarded(res, "run", lambda: list(obj.run(iter([Tok(s) for s in vals2]))))
+        if hang:
+            res.viol("C16:FillRequest:run-again:%s:hang" % cfg, "the second run() exceeded the step budget")
+            return
+        fills2 = probe.all_fills[first_fills:]
+        if sc.kind != "run" and fills2 != vals2:
+            res.viol("C16:FillRequest:run-again:%s:values-not-filled-exactly-once-in-order" % cfg,
+                     "second run of the same object over %r: the wrapped element was filled with %r"
+                     % (vals2, fills2))
+            return
+        if sc.kind != "run":
+            nblocks2 = getattr(probe, "ncomp", 0) - first_comp
+            if nblocks2 != len(vals2) // sc.n or len(got2) != nblocks2 * sc.results:
+                res.viol("C16:FillRequest:run-again:%s:block-count" % cfg,
+                         "second run of the same object over %d values with bufsize %d emitted %d "
+                         "results in %d blocks (the first run had an incomplete last block of %d)"
+                         % (len(vals2), sc.n, len(got2), nblocks2, len(values) % sc.n))
+                return
+
+
 def occupancy(adapter, n):
     bi = getattr(adapter, "_buffer_in", None) or []
     bo = getattr(adapter, "_buffer_out", None) or []
@@ -379,6 +431,8 @@ def occupancy(adapter, n):
 
 def drive_push(sc, res, values, cfg):
     log = res.log
+    if getattr(sc, "long", False):
+        res.probe("thousand-blocks-between-two-requests")
     probe = make_probe(sc, log)
     adapter = make_adapter(sc, probe)
     obj = wrap(sc, adapter, log)
